@@ -246,7 +246,41 @@ func c20Compact(r *Run, db *SiteDB) {
 	}
 	el := r.L.Func("fsimpl/localfs", "encodeLikely")
 	// shifts: q |= minor << S1; q |= major << S2
-	eval := func(e ast.Expr) (int64, bool) {
+	var eval func(e ast.Expr) (int64, bool)
+	eval = func(e ast.Expr) (int64, bool) {
+		// a local that is defined once stands for its definition (minorShift := inodeLikelyBits)
+		if id, isId := unparen(e).(*ast.Ident); isId && el != nil {
+			if v, isVar := objOf(info, id).(*types.Var); isVar && !v.IsField() && v.Parent() != v.Pkg().Scope() {
+				var def ast.Expr
+				n := 0
+				ast.Inspect(el.Decl.Body, func(nd ast.Node) bool {
+					switch st := nd.(type) {
+					case *ast.AssignStmt:
+						for i, l := range st.Lhs {
+							if objOf(info, l) == v {
+								n++
+								if len(st.Lhs) == len(st.Rhs) {
+									def = st.Rhs[i]
+								}
+							}
+						}
+					case *ast.IncDecStmt:
+						if objOf(info, st.X) == v {
+							n += 2
+						}
+					case *ast.UnaryExpr:
+						if st.Op == token.AND && objOf(info, st.X) == v {
+							n += 2
+						}
+					}
+					return true
+				})
+				if n == 1 && def != nil {
+					return eval(def)
+				}
+				return 0, false
+			}
+		}
 		// evaluate sums of the three variables
 		s := norm(unparen(e))
 		s = strings.Trim(s, "()")
@@ -350,6 +384,43 @@ func c20Compact(r *Run, db *SiteDB) {
 			}
 		}
 		return true
+	})
+	// the same assembly written as one expression: ino&mask | minor<<S1 | major<<S2 (the
+	// operands of a chain of |, wherever it stands)
+	var orOperands func(e ast.Expr) []ast.Expr
+	orOperands = func(e ast.Expr) []ast.Expr {
+		e = unparen(e)
+		if be, ok := e.(*ast.BinaryExpr); ok && be.Op == token.OR {
+			return append(orOperands(be.X), orOperands(be.Y)...)
+		}
+		return []ast.Expr{e}
+	}
+	ast.Inspect(el.Decl.Body, func(n ast.Node) bool {
+		be, ok := n.(*ast.BinaryExpr)
+		if !ok || be.Op != token.OR {
+			return true
+		}
+		for _, op := range orOperands(be) {
+			ob, isBin := op.(*ast.BinaryExpr)
+			if !isBin {
+				continue
+			}
+			switch ob.Op {
+			case token.SHL:
+				if v, ok := eval(ob.Y); ok {
+					if rl := role[objOf(info, unparen(ob.X))]; rl != "" {
+						shifts[rl] = v
+					} else {
+						shifts["?"+norm(ob.X)] = v
+					}
+				}
+			case token.AND:
+				if isIno(ob.X) {
+					shifts["ino"] = 0
+				}
+			}
+		}
+		return false
 	})
 	okLayout := len(shifts) == 3
 	type rg struct{ lo, hi int64 }
